@@ -234,10 +234,10 @@ PROPS["C08"] = dict(
 PROPS["C15"] = dict(
     title="At most one follower node holds a table's replication lease at a time",
     design_ref="DESIGN.md section 7 (C15)",
-    run_files=["Run/C15Run.v"],
+    run_files=["Run/C15Run.v", "Mutants/LeaseWorkerMutants.v"],
     engines=[dict(cmd=["c15"], corr="Model.Lease.lexec <-> table.Manager.LeaseTable/ReturnTable over kv.LFSM compare-and-set", timeout=900)],
-    level_text="Theorem for every interleaving (single metadata-store operations of any number of nodes, any lease durations incl. already expired ones, any passage of a global clock): at most one node holds a granted, unreturned, unexpired lease; the invariant is proved for each step; grant condition, one winner among racing requests, return removes only the caller's own lease. The real LeaseTable/ReturnTable run over the real kv.LFSM CAS semantics behind a scheduler that releases one store operation at a time: all interleavings of two calls enumerated plus random 2-3 node schedules, two waiting writes optionally applied by ONE LFSM.Update call (proposals committed together), compared with the model and with a mutual-exclusion oracle.",
-    level_note="Trusts: Coq kernel; one global monotone clock (nodes' clocks are assumed synchronised, as the lease design itself assumes); correspondence run; RaftStore.Set/Delete result mapping re-implemented in the harness store (same code shape); the replication worker's `leased` flag (whether a node ACTS on a lease after a failed renewal) is outside the statement and the model.",
+    level_text="Theorem for every interleaving (single metadata-store operations of any number of nodes, any lease durations incl. already expired ones, any passage of a global clock): at most one node holds a granted, unreturned, unexpired lease; the invariant is proved for each step; grant condition, one winner among racing requests, return removes only the caller's own lease. The real LeaseTable/ReturnTable run over the real kv.LFSM CAS semantics behind a scheduler that releases one store operation at a time: all interleavings of two calls enumerated plus random 2-3 node schedules, two waiting writes optionally applied by ONE LFSM.Update call (proposals committed together), compared with the model and with a mutual-exclusion oracle; the workers' lease routine on top of it (flag = outcome of the last call; exclusive modulo a missed renewal deadline), with the flag-keeping variant refuted in Mutants/LeaseWorkerMutants.v and real workers run over a partitionable metadata shard.",
+    level_note="Trusts: Coq kernel; one global monotone clock (nodes' clocks are assumed synchronised, as the lease design itself assumes); correspondence run; RaftStore.Set/Delete result mapping re-implemented in the harness store (same code shape); the replication worker's `leased` flag (whether a node ACTS on a lease) is modelled in Model/LeaseWorker.v: the flag follows the node's last finished LeaseTable call, two flagged workers coexist only if one is past the end of the lease it last obtained - timeliness of the routine (renewal every interval, lease of four) is real time and only exercised.",
     technique="Coq proof (inductive invariant over a small-step interleaving semantics with a ghost grant map) + scheduler-controlled differential check of table.Manager lease calls",
     trusted=["Model/Lease.v hand-written model of Manager.LeaseTable/ReturnTable and the LFSM version rule"],
     assumptions=["global monotone clock", "metadata store versions are log indices >= 1 (C13)"],
@@ -246,10 +246,10 @@ PROPS["C15"] = dict(
 PROPS["C14"] = dict(
     title="Table catalogue: unique names, never-reused ids, empty when (re)created",
     design_ref="DESIGN.md section 7 (C14)",
-    run_files=["Run/C14Run.v"],
+    run_files=["Run/C14Run.v", "Mutants/CatalogueMutants.v"],
     engines=[dict(cmd=["c14"], corr="Model.Catalogue.{cexec,to_start,to_stop} <-> table.Manager.createTable/incAndGetIDSeq/DeleteTable/GetTables, diffTables", timeout=900)],
-    level_text="Theorems for every interleaving of create/delete/list calls of any number of managers at single-store-operation granularity: ids of created tables are pairwise distinct and increasing (inductive invariant over the id sequence's compare-and-set), an existing name is refused, the three steps of a creation succeed when undisturbed, the second of two racing creations of one name fails, listing is exact, diffTables starts/stops exactly the right shards, per-id isolation of table data. Real managers run over the real kv.LFSM CAS semantics behind a scheduler (all interleavings of call pairs + random schedules), real diffTables on random inputs (against the model and a set oracle), and a real Manager on a NodeHost for emptiness of recreated tables, isolation, slash and prefix names, and a restore after an interrupted restore (new id, stream content only).",
-    level_note="Trusts: Coq kernel; genconst (tableIDsRangeStart); table names are path segments (names with '/' are rejected by the repaired code); emptiness of a new table rests on dragonboat giving a fresh shard id a fresh state machine directory (exercised on a real NodeHost, not proved); Restore's catalogue steps use the same id sequence (covered by the invariant) but are exercised only sequentially (C07).",
+    level_text="Theorems for every interleaving of create/delete/restore/list calls (restores incl. streams that break off and retries) of any number of managers at single-store-operation granularity: ids given to created or restored tables are pairwise distinct, every id drawn from the sequence is above every id drawn before (inductive invariant over the id sequence's compare-and-set), a restore never re-uses the recovery id an interrupted attempt left behind (refuted for the re-using variant in Mutants/CatalogueMutants.v), undisturbed it succeeds and switches the table to the new id, an existing name is refused, the three steps of a creation succeed when undisturbed, the second of two racing creations of one name fails, listing is exact, diffTables starts/stops exactly the right shards, per-id isolation of table data. Real managers run over the real kv.LFSM CAS semantics behind a scheduler (all interleavings of call pairs + random schedules, incl. Restore with complete and interrupted streams), real diffTables on random inputs (against the model and a set oracle), and a real Manager on a NodeHost for emptiness of recreated tables, isolation, slash and prefix names, and a restore after an interrupted restore (new id, stream content only).",
+    level_note="Trusts: Coq kernel; genconst (tableIDsRangeStart); table names are path segments (names with '/' are rejected by the repaired code); emptiness of a new table rests on dragonboat giving a fresh shard id a fresh state machine directory (exercised on a real NodeHost, not proved); Restore's catalogue steps are part of the model and run interleaved with the other managers' calls on a real NodeHost (one per case); what the recovery shard then contains is C07's theorem.",
     technique="Coq proof (inductive invariant over an interleaving semantics of store programs, permutation reasoning on pending ids) + scheduler-controlled differential check of table.Manager",
     trusted=["Model/Catalogue.v hand-written model of the catalogue programs in storage/table/manager.go"],
     assumptions=["metadata store versions are log indices >= 1 and compared only for existing keys (C13)", "table names contain no '/'"],
